@@ -224,6 +224,28 @@ theorem item_lookup_full_statement_fails :
   revert this
   decide
 
+/-- **Object-valued references in an item denote what they denote in modelx.**  For each of the four
+modes a reference can have (`none`: model level) and either position of the target: the generated
+`_mx_copy_refs` binds the base's object or the item's counterpart exactly as modelx re-binds the reference.
+(Over the chain extracted from `ParentTranslator.ref_copies`; a re-ordered or merged chain changes
+`Generated.exportRefCopyRule` and this is re-checked.) -/
+theorem ref_copy_matches_modelx (mode : String) (hm : mode ∈ ["none", "absolute", "auto", "relative"])
+    (inside : Bool) :
+    copiedBinding Generated.exportRefCopyRule mode inside = some (mxBinding mode inside) := by
+  simp only [List.mem_cons, List.mem_nil_iff, or_false] at hm
+  rcases hm with h | h | h | h <;> subst h <;> cases inside <;> decide
+
+/-- **Model-level references are never re-bound**: inside every item, also an item of the very tree the
+target lies in, the name denotes the static object (the subject of seeded change C15-mutF). -/
+theorem model_level_never_rebound (inside : Bool) :
+    copiedBinding Generated.exportRefCopyRule "none" inside = some .baseObject := by
+  cases inside <;> decide
+
+/-- with the chain of C15-mutF (`absolute` -> base, everything else -> inside test) a model-level reference
+to an object inside the tree is re-bound to the item's object -/
+example : copiedBinding [("absolute", "base"), ("*", "inside")] "none" true = some .itemCounterpart ∧
+    mxBinding "none" true = .baseObject := by decide
+
 /-- **The innermost argument wins.**  In `…P[a]…C[b]` where both formulas have a parameter
 `k`, code running in `C[b]` (or in a static space below it) sees `b`'s value. -/
 theorem innermost_argument_wins (g : Env) (inner : Level) (outer : List Level)
